@@ -30,7 +30,7 @@ func init() {
 		Batch: func(t string) int { return 32 },
 		Floors: []string{"roundtrips", "mode_encrypted_footer", "mode_plaintext_footer", "keys_footer_only", "keys_per_column", "missing_column_key_checks", "leak_scans", "markers_searched", "tamper_byte_flips", "tamper_truncations", "tamper_module_swaps", "tamper_swaps_256_apart", "wide_ordinal_files", "encrypted_seeks",
 			"tamper_cross_file_transplants", "tamper_wrong_key", "writer_reuse_after_reset", "write_rowgroup_from_encrypted_source", "envelope_walks", "entry_write_rows", "entry_write_rowgroup_buffer", "entry_write_rowgroup_plain_file", "entry_begin_rowgroup"},
-		Rule: "case = ({encrypted footer, signed plaintext footer} x {footer key only, per-column keys} x v1/v2 x codecs x page index / bloom filters x 1..n row groups x {fresh writer, writer reused through Reset after a file with another number of row groups}; " +
+		Rule: "case = ({encrypted footer, signed plaintext footer} x {footer key only, per-column keys} x v1/v2 x codecs x page index / bloom filters x 1..n row groups x {fresh writer, writer reused through Reset after a file with another number of row groups} x write entry point {typed Write, WriteRows, WriteRowGroup(buffer), WriteRowGroup(plaintext file), BeginRowGroup/Commit}; " +
 			"string values are unique 16-byte high-entropy markers). (a) round trip with the right keys equals the rows written; a reader lacking a column key gets an error for that column, never zeros; (b) no marker of an encrypted column (values or statistics) occurs in the raw bytes; " +
 			"(c) fault enumeration over the module envelopes found by an independent length-prefix walk: byte flips in nonce/ciphertext/tag/length of PRNG modules, truncation, swaps of equal-length modules, transplant of the same module position from another file written with an independent file identifier " +
 			"(both fresh configs and one shared *EncryptionConfig), wrong key of the right length: the read must fail or return exactly the clean rows. Distinct = descriptor hash",
